@@ -51,6 +51,10 @@ fn sugar_pairs() -> Vec<(String, String)> {
         (wrap("    x := (add)' 1, 2"), wrap("    x := add(1, 2)")),
         (wrap("    x := (add)(1, 2)"), wrap("    x := add(1, 2)")),
         (wrap("    x := inc' 1"), wrap("    x := inc(1)")),
+        (wrap("    x := 10 + (inc)(2)"), wrap("    x := 10 + inc(2)")),
+        (wrap("    x := 2 * (add)(1, 2) - (inc)(3)"), wrap("    x := 2 * add(1, 2) - inc(3)")),
+        (wrap("    x := -(inc)(3)"), wrap("    x := -inc(3)")),
+        (wrap("    x := 1 + ((1, 2))[0]"), wrap("    x := 1 + (1, 2)[0]")),
         (wrap("    x := add' 1, // the first\n        2"), wrap("    x := add(1, 2)")),
         (wrap("    x := add(1, // the first\n        2)"), wrap("    x := add(1, 2)")),
         (wrap("    x := add(\n        1,\n\n        2\n    )"), wrap("    x := add(1, 2)")),
@@ -344,6 +348,8 @@ fn programs(family: &str) -> Vec<(String, Outcome)> {
             p("twice :: pu f: pu -> int -> int do\n    ret f() + f()\nend\nk := 1\nnext :: fn -> int do\n    k += 1\n    ret k\nend\nstart :: fn do\n    print(twice(next))\nend\n", Outcome::Reject);
             p("k := 1\ng :: pu do\n    f :: fn do\n        k = 2\n    end\nend\nstart :: fn do\n    g()\nend\n", Outcome::Reject);
             p("k := 1\ng :: pu do\n    if true do\n        f :: fn do\n            m := k\n        end\n    end\nend\nstart :: fn do\n    g()\nend\n", Outcome::Reject);
+            p("k := 1\ng :: pu do\n    loop true do\n        f :: fn do\n            k = 2\n        end\n        break\n    end\nend\nstart :: fn do\n    g()\nend\n", Outcome::Reject);
+            p("k := 1\ng :: pu do\n    loop true do\n        if true do\n            f :: fn do\n                m := k\n            end\n        end\n        break\n    end\nend\nstart :: fn do\n    g()\nend\n", Outcome::Reject);
             p("start :: fn do\n    m := 1\n    m = 2\nend\n", Outcome::Accept);
         }
         "shape" => {
